@@ -101,8 +101,7 @@ var round13Unresolved = map[string]string{
 	"C02/a": "R10: per-document working state recycled through the pooled builder (three re-extensions, each clean for a different reason)",
 	"C04/a": "R6b: a second, unbuffered way of writing body and footer (no Flush on that path)",
 	"C09/b": "R6/R15: the output file owned by a higher-order helper (`writeSegmentFile(path, fill)`)",
-	"C17/b": "R6/R15/R7: the output file owned by a helper type with commit / discardUnlessCommitted",
-	"C18/b": "R6/R15/R7: as C17/b (mergeOutput)",
+	"C18/b": "R15b/R7b: an owner type that also owns the buffered and the counting writer stacked on the file (R6 follows it since round 16; C17/b, the owner of the file alone, is a fixture now)",
 	"C20/a": "R6c/R14/R3: small files read into the heap instead of being mapped (a second way of acquiring the bytes)",
 }
 
@@ -425,5 +424,25 @@ func fixedHarmless() []mutant {
 		{Harmless: true, ID: "h-r14-C19mb-fixed-vectors", Patch: "seeded/C19mb-feat-release-after-reconstruct-leak/fixed.diff", Vectors: true},
 		{Harmless: true, ID: "h-r14-C20ma-fixed", Patch: "seeded/C20ma-feat-pin-rollback-unpins-all/fixed.diff"},
 		{Harmless: true, ID: "h-r14-C20mb-fixed", Patch: "seeded/C20mb-feat-trim-caches-on-close/fixed.diff"},
+		{Harmless: true, ID: "h-r16-C01n-fixed", Patch: "seeded/C01n-plumb-addfreqnorm-haslocs-term-wide/fixed.diff"},
+		{Harmless: true, ID: "h-r16-C02n-fixed", Patch: "seeded/C02n-plumb-readarraypositions-uncut-scratch/fixed.diff"},
+		{Harmless: true, ID: "h-r16-C03n-fixed", Patch: "seeded/C03n-plumb-visitstate-bind-recycles-stale-readers/fixed.diff"},
+		{Harmless: true, ID: "h-r16-C04n-fixed", Patch: "seeded/C04n-obs-open-validates-footer-chunksize-zero/fixed.diff"},
+		{Harmless: true, ID: "h-r16-C05n-fixed", Patch: "seeded/C05n-plumb-mergefields-flag-overwritten-per-segment/fixed.diff"},
+		{Harmless: true, ID: "h-r16-C06n-fixed", Patch: "seeded/C06n-plumb-term-cardinality-helper-wrong-drops/fixed.diff"},
+		{Harmless: true, ID: "h-r16-C07n-fixed", Patch: "seeded/C07n-plumb-skip-variant-loses-freq-zero-return/fixed.diff"},
+		{Harmless: true, ID: "h-r16-C08n-fixed", Patch: "seeded/C08n-api-automaton-iterator-prealloc-reset-done/fixed.diff"},
+		{Harmless: true, ID: "h-r16-C09n-fixed", Patch: "seeded/C09n-plumb-term-cardinality-helper-wrong-drops-2/fixed.diff"},
+		{Harmless: true, ID: "h-r16-C10n-fixed", Patch: "seeded/C10n-obs-validate-in-processdocument-recycles-rejected/fixed.diff"},
+		{Harmless: true, ID: "h-r16-C11n-fixed", Patch: "seeded/C11n-plumb-docid-defer-put-twice/fixed.diff"},
+		{Harmless: true, ID: "h-r16-C12n-fixed", Patch: "seeded/C12n-plumb-synonymslist-clear-only-when-read/fixed.diff"},
+		{Harmless: true, ID: "h-r16-C13n-fixed", Patch: "seeded/C13n-plumb-livedrops-indexed-by-active-position/fixed.diff"},
+		{Harmless: true, ID: "h-r16-C14n-fixed", Patch: "seeded/C14n-plumb-cache-miss-split-loses-exclusions/fixed.diff"},
+		{Harmless: true, ID: "h-r16-C15n-fixed", Patch: "seeded/C15n-plumb-shared-metadata-writer-guard-hoisted/fixed.diff"},
+		{Harmless: true, ID: "h-r16-C16n-fixed", Patch: "seeded/C16n-plumb-acquire-exclusions-only-when-ready/fixed.diff"},
+		{Harmless: true, ID: "h-r16-C17n-fixed", Patch: "seeded/C17n-plumb-segmentfile-owner-shadowed-err/fixed.diff"},
+		{Harmless: true, ID: "h-r16-C18n-fixed", Patch: "seeded/C18n-plumb-poll-helper-skipped-for-empty/fixed.diff"},
+		{Harmless: true, ID: "h-r16-C19n-fixed", Patch: "seeded/C19n-plumb-newmergedindex-deferred-close-reads-nil-result/fixed.diff"},
+		{Harmless: true, ID: "h-r16-C20n-fixed", Patch: "seeded/C20n-plumb-close-chains-to-segmentbase-close/fixed.diff"},
 	}
 }
